@@ -285,6 +285,98 @@ func runC18(h *H) {
 			peer.Close()
 		}
 	}
+
+	// third pass: the server refuses only the FIRST literal of a command with two string
+	// arguments; the command fails, nothing of it may follow, and the next literal-bearing
+	// command must get its own continuation request (none may be left over for the dead command)
+	for _, cfg := range cfgs {
+		peer := newPeer("* OK [CAPABILITY " + cfg.Caps + "] ready\r\n")
+		peer.ContDelay = 5 * time.Millisecond
+		peer.OnLiteral = func(p *scriptedPeer, c *peerCmd, size int) string {
+			if (c.Name == "LOGIN" || c.Name == "RENAME") && len(c.Lits) == 0 {
+				return "NO literal refused"
+			}
+			return ""
+		}
+		peer.OnCommand = func(p *scriptedPeer, c *peerCmd) {
+			switch {
+			case c.Name == "CAPABILITY":
+				p.Send("* CAPABILITY " + cfg.Caps + "\r\n" + c.Tag + " OK done\r\n")
+			case c.Name == "LOGIN":
+				p.Send(c.Tag + " OK [CAPABILITY " + cfg.Caps + "] done\r\n")
+			default:
+				p.Send(c.Tag + " OK done\r\n")
+			}
+		}
+		client, _ := peer.dialClient(nil)
+		if err := client.WaitGreeting(); err != nil {
+			h.Fail("greeting", err.Error(), cfg)
+			continue
+		}
+		dead := false
+		for _, two := range []string{"LOGIN", "RENAME"} {
+			for _, s := range []string{"a\rb", "c\nd", strings.Repeat("q", 4097)} {
+				if dead {
+					break
+				}
+				desc := map[string]interface{}{"caps": cfg, "command": two, "arg_hex": fmt.Sprintf("%x", s), "refuse_first_literal": true}
+				h.InFlight(desc)
+				before := len(peer.Commands())
+				if !withTimeout(5*time.Second, func() {
+					if two == "LOGIN" {
+						client.Login(s, s).Wait()
+					} else {
+						client.Rename(s, s).Wait()
+					}
+				}) {
+					h.Fail("client-hang:"+two, fmt.Sprintf("%s(%q, %q) did not return after its first literal was refused", two, s, s), desc)
+					dead = true
+					break
+				}
+				if client.State() == imap.ConnStateLogout {
+					h.Fail("refusal-kills-client", fmt.Sprintf("after the server refused the first literal of %s the whole client is closed", two), desc)
+					dead = true
+					break
+				}
+				// the next literal-bearing command must go through
+				var aerr error
+				ok := withTimeout(5*time.Second, func() {
+					ac := client.Append("box", 3, nil)
+					ac.Write([]byte("abc"))
+					ac.Close()
+					_, aerr = ac.Wait()
+				})
+				sync := false
+				for _, c := range peer.Commands()[before:] {
+					for _, l := range c.Lits {
+						if !l.NonSync {
+							sync = true
+						}
+					}
+					for _, b := range checkLegal(cfg, c) {
+						h.Fail("illegal-output:"+strings.SplitN(b, ":", 2)[0], fmt.Sprintf("%s under [%s]: %s", c.Name, cfg.Caps, b), desc)
+					}
+				}
+				if !ok {
+					h.Fail("stale-continuation:"+two, fmt.Sprintf("after the first literal of %s(%q, %q) was refused with a tagged NO, the next command (APPEND {3}) never sent its literal although the server sent '+': a continuation request of the dead command swallowed it", two, s, s), desc)
+					dead = true
+				} else if aerr != nil {
+					h.Fail("stale-continuation:"+two, fmt.Sprintf("APPEND after a refused %s literal failed: %v", two, aerr), desc)
+				}
+				key := ""
+				if sync {
+					key = fmt.Sprintf("%v|%s2|%x|first-refused", cfg, two, s)
+				}
+				h.Eval(key)
+				h.Hist("cmd:" + two + "-first-literal-refused")
+			}
+		}
+		for _, v := range peer.Violations() {
+			h.Fail("literal-sync", v, map[string]interface{}{"caps": cfg, "refuse_first_literal": true})
+		}
+		withTimeout(3*time.Second, func() { client.Close() })
+		peer.Close()
+	}
 }
 
 func capTerms(c capCfg) []string {
